@@ -456,3 +456,46 @@ Proof.
   - destruct Hcl as [H1 H2 H3 H4 H5]. constructor; cbn [temps marks pds mdl]; auto.
     rewrite hide_true_length. unfold counts. apply pass_length.
 Qed.
+
+(* ---------- unconditional instances: enumeration without assumptions ---------- *)
+Lemma in_range_nil n : in_range n [].
+Proof. intros l []. Qed.
+
+Lemma exec_spec_perm_nil C n : WF C n -> forall A', Permutation [] A' -> exec_spec C n A'.
+Proof. intros HWF A' HP. apply Permutation_nil in HP. subst. now apply exec_spec_nil. Qed.
+
+Theorem enumerate_page_nil C n : WF C n -> (0 < n)%nat -> or_no_true_child C = true ->
+  forall amount cur s, Clean C s -> 0 < amount ->
+  let c := MCA C n [] in
+  let p := cur_get cur [] in
+  let stop := Z.min c (p + amount) in
+  0 < c -> 0 <= p < c ->
+  exists s2, Clean C s2 /\
+    enumerate (build C n) [] amount cur s =
+    (s2, cur_set cur [] (stop mod c), Some (map sort_abs (slice p stop (EOr C [])))).
+Proof.
+  intros HWF Hn Hor amount cur s Hcl Ham.
+  exact (enumerate_page C n HWF Hn Hor [] amount cur s (in_range_nil n) (exec_spec_nil C n HWF) Hcl Ham).
+Qed.
+
+Theorem pages_cycle_nil C n : WF C n -> (0 < n)%nat -> or_no_true_child C = true ->
+  forall reqs cur s, Clean C s -> Forall (req_ok []) reqs -> 0 < MCA C n [] ->
+  cur_get cur [] = 0 -> zsum (map snd reqs) = MCA C n [] ->
+  exists rs cur' s',
+    run_pages (build C n) reqs cur s = (rs, cur', s') /\
+    Permutation (pages_of rs) (Models C n) /\ NoDup (pages_of rs) /\ cur_get cur' [] = 0.
+Proof.
+  intros HWF Hn Hor reqs cur s Hcl Hreq Hc Hp Hs.
+  destruct (pages_cycle C n [] HWF Hn Hor (in_range_nil n) (NoDup_nil _) (exec_spec_perm_nil C n HWF)
+                        reqs cur s Hcl Hreq Hc Hp Hs) as (rs & cur' & s' & H1 & _ & H2 & H3 & H4).
+  exists rs, cur', s'. rewrite ModelsA_nil in H2. auto.
+Qed.
+
+(* a clean scratch is determined up to temps and pds (used to discharge exec_spec on concrete circuits) *)
+Lemma clean_shape C s : Clean C s -> marks s = map (fun _ => false) C /\ mdl s = [].
+Proof.
+  intros [H1 H2 H3 H4 H5]. split; [|exact H5].
+  revert H2 H4. generalize (marks s) as ms. clear. induction C as [|nd C IH]; intros [|b ms] Hl Hf;
+    cbn in Hl; try discriminate; [reflexivity|].
+  inversion Hf; subst. cbn [map]. f_equal. apply IH; [congruence|assumption].
+Qed.
